@@ -1311,6 +1311,17 @@ def rule_problem_build_table(F, ev, R, config, rule="R-PROBLEM-BUILD-TABLE"):
                 return ("zero", r[0] == "Eq")
             if any(XL(x) for x in ops) and any(NR(x) for x in ops):
                 return ("rows", r[0] == "Ne")
+            # emptiness of the observations spelled out by extent: no rows / no columns / no elements
+            if ("const", "usize", 0) in ops:
+                for x in ops:
+                    if x[0] == "call" and len(x) >= 4 and x[3] and x[3][0] == Y and "nalgebra" in x[1]:
+                        n_ = x[1].rsplit("::", 1)[-1]
+                        if n_ == "nrows":
+                            return ("empty_rows", r[0] == "Eq")
+                        if n_ == "ncols":
+                            return ("empty_cols", r[0] == "Eq")
+                        if n_ == "len":
+                            return ("empty", r[0] == "Eq")
         if t[0] == "call" and t[1].endswith("::is_empty") and t[3][0] == Y:
             return ("empty", not neg)
         if t[0] != "discr" and contains(t, lambda x: x[0] == "payload" and x[2] == "Diagonal") and contains(t, lambda x: x == ("field", me, br["weights"])) and \
@@ -1353,6 +1364,8 @@ def rule_problem_build_table(F, ev, R, config, rule="R-PROBLEM-BUILD-TABLE"):
                 a, b_ = implies_defect(term[2], truth, names), implies_defect(term[3], truth, names)
                 return (a or b_) if conj else (a and b_)
             c = classify(term)
+            if c and c[0] == "weights_fit" and "weights_fit" not in found:
+                found["weights_fit"] = {"term": term}       # a size test that is a value, not a branch (`….then_some(())`)
             return bool(c) and c[0] in names and c[1] == truth
 
         def guards_of(body, e2):
@@ -1379,7 +1392,7 @@ def rule_problem_build_table(F, ev, R, config, rule="R-PROBLEM-BUILD-TABLE"):
             # built eagerly as the argument of `recv.ok_or(E)`: returned only when recv is absent
             if local is not None:
                 only_if = returned_only_if(ev, body, e2, local)
-                if only_if and any(implies_defect(t_, tr, names) for t_, tr in only_if):
+                if only_if and (never_holds(only_if) or any(implies_defect(t_, tr, names) for t_, tr in only_if)):
                     return True
             # a private constructor helper of the error value: the site is its call
             if depth < 3 and e2.parent is not None and e2.path and unconditional_constructor(body, bi):
@@ -1388,7 +1401,7 @@ def rule_problem_build_table(F, ev, R, config, rule="R-PROBLEM-BUILD-TABLE"):
             return False
         for body, e2 in pairs:
             g, atoms = guards_of(body, e2)
-            spec = {"ZeroLengthVector": ["zero", "empty"], "InvalidLengthOfData": ["rows"], "InvalidLengthOfWeights": ["weights_fit"]}
+            spec = {"ZeroLengthVector": ["zero", "empty", "empty_rows", "empty_cols"], "InvalidLengthOfData": ["rows"], "InvalidLengthOfWeights": ["weights_fit"]}
             for bi, si, s in body.stmts():
                 if s["k"] == "assign" and s["rv"]["k"] == "agg" and s["rv"].get("adt", "").endswith("LevMarBuilderError"):
                     v = s["rv"]["variant"]
@@ -1439,13 +1452,22 @@ def rule_problem_build_table(F, ev, R, config, rule="R-PROBLEM-BUILD-TABLE"):
         for bi, s in ok_sites:
             rels, raw = g.relations_at(bi)
             have = {"zero": False, "empty": False, "rows": False, "weights_fit": False, "observations-present": False}
+            parts = {"empty_rows": False, "empty_cols": False}
             conds = [(t, tr) for t, tr, sw in raw if isinstance(tr, bool)]
             for r in rels:
                 conds.append((("bin", r[0], r[1], r[2]), True))
             for t, tr in conds:
                 c = classify(t)
+                if c and c[0] == "weights_fit" and "weights_fit" not in found:
+                    found["weights_fit"] = {"term": t}
                 if c and c[1] != tr:
-                    have[c[0]] = True
+                    if c[0] in parts:
+                        parts[c[0]] = True
+                    else:
+                        have[c[0]] = True
+            # not empty = at least one row and at least one column (rows also follow from output_len ≠ 0 = nrows)
+            if (parts["empty_rows"] or (have["zero"] and have["rows"])) and parts["empty_cols"]:
+                have["empty"] = True
             for t, tr, sw in raw:
                 if t[0] == "discr" and not isinstance(tr, bool):
                     inner = t[1][1] if t[1][0] == "cf" else t[1]
@@ -1463,6 +1485,8 @@ def rule_problem_build_table(F, ev, R, config, rule="R-PROBLEM-BUILD-TABLE"):
                 live = env_v.body.live_blocks()
                 sites = [st for bi, si, st in env_v.body.stmts() if bi in live and st["k"] == "assign" and st["rv"]["k"] == "agg"
                          and st["rv"].get("adt", "").endswith("LevMarBuilderError") and st["rv"].get("variant") == "InvalidLengthOfWeights"]
+                # a value built eagerly as the argument of `cond.then_some(()).ok_or(E)` with cond folded to true is never handed on
+                sites = [st for st in sites if st["place"]["proj"] or not never_holds(returned_only_if(ev, env_v.body, env_v, st["place"]["l"]) or [])]
                 k = (b0.key, "unit-weights-never-rejected")
                 results[k] = [not sites, "" if not sites else "Err(InvalidLengthOfWeights) can be returned for unit weights", sites[0].get("span") if sites else b0.j["span"]]
                 order.append(k)
@@ -1479,6 +1503,24 @@ def rule_problem_build_table(F, ev, R, config, rule="R-PROBLEM-BUILD-TABLE"):
         eqs = [a for a in alts if a[0] == "bin" and a[1] == "Eq" and ("param", sb.key, 2) in (a[2], a[3])
                and contains(a, lambda x: x[0] == "payload" and x[2] == "Diagonal")]
         ok = t1 and len(eqs) == 1 and len(alts) == 2
+        if not ok:
+            # another spelling (`!matches!(self, Diagonal(d) if d.size() != n)`): decided once per variant
+            def simp(t):
+                neg = False
+                while t[0] == "un" and t[1] == "Not":
+                    t, neg = t[2], not neg
+                if t[0] == "const" and t[1] == "bool":
+                    return ("const", "bool", int(bool(t[2]) != neg))
+                return ("un", "Not", t) if neg else t
+            got = {}
+            me_w = ("param", sb.key, 1)
+            for var in weight_variants(F):
+                ev.fresh_ctx()
+                with ev.assuming(me_w, var):
+                    got[var] = simp(ev.ret_val(ev.inline_env(sb, {}, 0)))
+            r_ = canon_rel(got.get("Diagonal", ("none",)), True)
+            ok = got.get("Unit") == ("const", "bool", 1) and bool(r_) and r_[0] == "Eq" and ("param", sb.key, 2) in (r_[1], r_[2]) and \
+                contains(("t", r_[1], r_[2]), lambda x: x[0] == "payload" and x[2] == "Diagonal")
         R.add(rule, config, sb.key, "unit=>true,diagonal=>len==n", ok, "" if ok else "weights size check evaluates to `%s`" % short(v)[:200], sb.j["span"])
     R.floor(rule, config, 10, "4 error variants + 5 success conditions + size table")
 
